@@ -1,6 +1,7 @@
 package main
 
 import (
+	"crypto/ecdsa"
 	"fmt"
 	"time"
 
@@ -16,11 +17,20 @@ type ffScenario struct {
 	victims []*SimNode
 }
 
+// collidingKeyPairs: indexes (i, j) such that detKey(0,"collide",i) and
+// detKey(0,"collide",j) are different keys with the same 32-bit peer id
+// (`vcheck findcollisions 4`).
+var collidingKeyPairs = [][2]int{{993, 48767}, {29721, 179326}, {103232, 181346}, {152041, 200622}}
+
 func buildFFScenario(cs CaseSpec, res *CaseResult) *ffScenario {
 	nw := NewNetwork(cs, res)
 	opts := defaultOpts()
 	nw.DefaultOpts = opts
 	n := int(cs.I("n", 4))
+	if c := int(cs.I("collide", 0)); c > 0 {
+		// validator 1's key shares its 32-bit peer id with a key the forger will use
+		nw.KeyOverride = map[int]*ecdsa.PrivateKey{1: detKey(0, "collide", collidingKeyPairs[(c-1)%len(collidingKeyPairs)][0])}
+	}
 	nw.GenesisNodes(n, opts, nil)
 	nw.CheckSuspendAfterGossip = false
 	sc := &ffScenario{nw: nw}
@@ -211,6 +221,12 @@ func runC14(cs CaseSpec) *CaseResult {
 		for j := 0; j < k; j++ {
 			att = append(att, &SimKey{detKey(cs.Seed, "forger", cs.Index*1000+i*10+j)})
 		}
+		if c := int(cs.I("collide", 0)); c > 0 && i%2 == 0 {
+			// a stranger's key whose 32-bit peer id equals that of a validator the
+			// victim knows (found by a birthday search; an attacker would grind one)
+			att[0] = &SimKey{detKey(0, "collide", collidingKeyPairs[(c-1)%len(collidingKeyPairs)][1])}
+			res.count("forged_responses_with_a_signer_whose_peer_id_collides_with_a_known_validator", 1)
+		}
 		var base *ffTriple
 		if len(sc.triples) > 0 && rng.Intn(2) == 0 {
 			base = sc.triples[rng.Intn(len(sc.triples))]
@@ -372,10 +388,18 @@ func init() {
 	})
 	register(&PropDef{
 		ID: "C14", Level: "exploration", Engine: "nodesim+forger",
-		Rule:           "one case = one nodesim history plus ~40 forged fast-forward responses (1-4 attacker keys outside every set the victim knows, self-made validator set, block correctly signed by it, empty or copied frame content, block index small or higher than everyone's) offered to victims in three states through core.fastForward and through the node-level flow with the forger as one responder among honest ones; must be refused with the state digest unchanged; non-trivial: a forged response was judged against a victim that knows none of its signers",
-		Assumptions:    []string{"'reason to trust' = configured peers, genesis peers, current validators and every validator set the node has derived"},
-		MinNontrivial:  6,
-		Cases:          func(tier string, seed int64) []CaseSpec { return ffCases(tier, seed+7, 24, 300, 40) },
+		Rule:          "one case = one nodesim history plus ~40 forged fast-forward responses (1-4 attacker keys outside every set the victim knows, self-made validator set, block correctly signed by it, empty or copied frame content, block index small or higher than everyone's) offered to victims in three states through core.fastForward and through the node-level flow with the forger as one responder among honest ones; must be refused with the state digest unchanged; non-trivial: a forged response was judged against a victim that knows none of its signers",
+		Assumptions:   []string{"'reason to trust' = configured peers, genesis peers, current validators and every validator set the node has derived"},
+		MinNontrivial: 6,
+		Cases: func(tier string, seed int64) []CaseSpec {
+			cs := ffCases(tier, seed+7, 24, 300, 40)
+			for i := range cs {
+				if i%3 == 1 {
+					cs[i].P["collide"] = int64(1 + i%4)
+				}
+			}
+			return cs
+		},
 		Run:            runC14,
 		PerCaseTimeout: 10 * time.Minute,
 	})
